@@ -1,5 +1,7 @@
 """C08 - Iterative (Dykstra) projection: feasible fixed, converges to the L2-nearest point."""
 import itertools
+import json
+import random
 import numpy as np
 from common import Case, cq, cql, cqm, clist, cnat, cnatl, copt, czl, cz, cbool, cnatpairs
 import latgen
@@ -14,7 +16,9 @@ RULE = ("lattice_lib.project_by_dykstra on random valid configurations: every fa
         "range dominance, joint monotonicity, joint unimodality), rank 1-4, sizes 2-4, units 1-3, iterations 0-6; "
         "kernels: random, far, ties, constant, and additive monotone kernels that are feasible for most configs. "
         "The Coq model runs the same sweeps. PWL: project_all_constraints with 0-12 iterations (model of C04). "
-        "Implementation-side predicates: a feasible kernel is returned unchanged; and (testing, named as such) "
+        "Implementation-side predicates: a feasible kernel is returned unchanged; for the six exact families the "
+        "result of any generated number of sweeps is not farther from a feasible kernel (constant kernel; NNLS-"
+        "nearest feasible kernel) than the input was (the proved Fejer-type bound); and (testing, named as such) "
         "for the six families whose limit must be the nearest point, the result of 300 sweeps is compared with the "
         "exact Euclidean projection computed independently (NNLS on the dual) and re-projecting it must not move "
         "it. Non-trivial = projection changed the kernel; distinct = distinct (config, kernel).")
@@ -38,6 +42,8 @@ def single_family_cfg(rng):
   rank = rng.choice([1, 2, 2, 3])
   if fam in ("edge", "trap", "mdom", "rdom", "jmono") and rank < 2:
     rank = 2
+  if fam == "juni" and rng.random() < 0.5:
+    rank = rng.choice([2, 2, 3])
   while True:
     sizes = [rng.choice([2, 3, 3, 4]) for _ in range(rank)]
     if int(np.prod(sizes)) <= 48:
@@ -73,6 +79,14 @@ def single_family_cfg(rng):
     for d in dims:
       cfg["sizes"][d] = rng.choice([3, 3, 4])
     cfg["juni"] = [[dims, rng.choice(["valley", "peak"])]]
+    rest = [d for d in range(rank) if d not in dims]
+    if len(rest) >= k and rng.random() < 0.6:
+      # a second group of the SAME arity (their roll-back terms must be kept apart by the dimensions)
+      dims2 = rng.sample(rest, k)
+      for d in dims2:
+        cfg["sizes"][d] = 3
+      if int(np.prod(cfg["sizes"])) <= 81:
+        cfg["juni"].append([dims2, rng.choice(["valley", "peak"])])
   return cfg
 
 
@@ -108,6 +122,29 @@ def gen_descs(ctx):
         break
     cfg["units"] = 1
     out.append(dict(kind="nearest", cfg=cfg, w=latgen.gen_kernel(rng, cfg, rng.choice(["random", "far"])), iters=300))
+  # convergence tests (implementation only), ALL eight families and mixtures: the violation tends to zero and a
+  # converged result is a fixed point
+  for _ in range(ctx.n(10, 200)):
+    while True:
+      cfg = single_family_cfg(rng)
+      if int(np.prod(cfg["sizes"])) <= 36:
+        break
+    out.append(dict(kind="converge", cfg=cfg, w=latgen.gen_kernel(rng, cfg, rng.choice(["random", "far", "ties"])),
+                    iters=300))
+  return out
+
+
+def focus(ctx, desc):
+  """Cases derived from a model/implementation disagreement: the same configuration run to convergence, from the
+  disagreeing kernel and from fresh ones, plus a feasible kernel (must stay unchanged)."""
+  if desc.get("kind") != "dyk":
+    return []
+  cfg = desc["cfg"]
+  rng = random.Random(ctx.seed * 7919 + len(json.dumps(desc, default=str)))
+  out = [dict(kind="converge", cfg=cfg, w=desc["w"], iters=300)]
+  for klass in ("random", "far", "ties"):
+    out.append(dict(kind="converge", cfg=cfg, w=latgen.gen_kernel(rng, cfg, klass), iters=300))
+  out.append(dict(kind="dyk", cfg=cfg, kclass="feasible", w=feasible_candidate(rng, cfg), iters=3))
   return out
 
 
@@ -155,6 +192,18 @@ def eval_cases(ctx, descs):
     fails = []
     if not np.all(np.isfinite(out)):
       fails.append("non-finite kernel returned")
+    if d["kind"] == "converge":
+      viol = all_viols(out, cfg)
+      if viol > 1e-3 * scale:
+        fails.append("after %d sweeps the largest violation is still %r (input violation %r)" % (
+            d["iters"], viol, all_viols(W, cfg)))
+      again = lib.project_by_dykstra(tf.constant(out), **latgen.dykstra_kwargs(cfg, d["iters"])).numpy()
+      if np.abs(again - out).max() > 2e-3 * scale:
+        fails.append("re-projecting the converged result moves it by %r" % np.abs(again - out).max())
+      cases.append(Case(d, coq=None, pred_fail="; ".join(fails) if fails else None,
+                        nontrivial=bool(np.abs(out - W).max() > 1e-12), klass="converge_" + cfg.get("fam", "mix"),
+                        info={"violation": viol}))
+      continue
     if d["kind"] == "nearest":
       A = latpred.constraint_rows(cfg)
       target = latpred.nearest_feasible(W[:, 0], A)
@@ -174,6 +223,20 @@ def eval_cases(ctx, descs):
     feasible = all_viols(W, cfg) <= 0.0
     if feasible and np.abs(out - W).max() > 1e-9 * scale:
       fails.append("a kernel satisfying every configured constraint is changed by %r" % np.abs(out - W).max())
+    # Fejer-type bound (proved for the model: C08_dykstra_never_farther_from_feasible): for the six exact
+    # families the result of ANY number of sweeps is not farther from ANY feasible kernel than the input was.
+    if not cfg["rdom"] and not cfg["juni"] and np.all(np.isfinite(out)):
+      A = latpred.constraint_rows(cfg)
+      for u in range(W.shape[1]):
+        refs = [("the constant kernel", np.full(W.shape[0], float(W[:, u].mean())))]
+        y = latpred.nearest_feasible(W[:, u], A)
+        if A.shape[0] == 0 or float((A @ y).min()) >= -1e-9 * scale:
+          refs.append(("the nearest feasible kernel (NNLS)", y))
+        for name, y in refs:
+          d0, d1 = float(np.linalg.norm(W[:, u] - y)), float(np.linalg.norm(out[:, u] - y))
+          if d1 > d0 + 1e-6 * scale:
+            fails.append("unit %d: after %d sweeps the kernel is farther from %s (%r) than the input was (%r)"
+                         % (u, d["iters"], name, d1, d0))
     coq = "CDyk %s %s %s" % (coq_dyk_cfg(cfg, d["iters"]), cql(flat(W)), cql(flat(out)))
     moved = bool(np.abs(out - W).max() > 1e-12)
     cases.append(Case(d, coq=coq, pred_fail="; ".join(fails) if fails else None, nontrivial=moved or feasible,
